@@ -230,7 +230,13 @@ def step (p : Params) (st : St) (o : MemObs) : St × Option Fail :=
   let fReason := checkReasons stR o
   let fPipe : Option Fail :=
     let ev := (o.leaves.filter fun (e, _) => e = Reason.evict).map (·.2)
-    if !o.pipedKnown || ev = o.piped then none
+    -- `resize` works on the shards in parallel threads: notifications and hand-offs of different shards
+    -- interleave freely, only the order within a shard is defined
+    let same : Bool := match o.op with
+      | .resize _ => (List.range nsh).all fun i =>
+          (ev.filter fun r => shardOfRid st r.rid = i) = (o.piped.filter fun r => shardOfRid st r.rid = i)
+      | _ => ev = o.piped
+    if !o.pipedKnown || same then none
     else some { prop := "C13", clause := "disk_handoff_iff_evicted", detail := s!"evicted {repr (ev.map (·.rid))} handed off {repr (o.piped.map (·.rid))}" }
   let fPhantom : Option Fail := match o.op with
     | .drop rid =>
